@@ -224,7 +224,10 @@ Print Assumptions C10_stream_error_flushed_partial.
    the peer's close by err == io.EOF (identity: errors that wrap io.EOF are
    handler errors) and reads the input context in force at every turn;
    closeSession sets the bit, in the critical section of its test, before it
-   writes the closing element. *)
+   writes the closing element; setWriteDeadline clears the write deadline where
+   it expired it, and newConn takes the deadline methods from the underlying
+   connection (the two pieces of transport plumbing behind "a transmit call
+   leaves the connection writable" and "SetCloseDeadline arms the reads"). *)
 Theorem C10_source_tables :
   sc_out_lockers = map str ["Session.Close"; "Session.Encode"; "Session.EncodeElement";
                             "Session.TokenWriter"; "Session.sendError"; "send"]%string /\
@@ -241,6 +244,7 @@ Theorem C10_source_tables :
    sc_reader_ws_close_is_eof = true) /\
   sc_statelock_blocking_calls = [] /\
   (sv_serve_eof_identity = true /\ sc_serve_reads_context_every_turn = true) /\
-  sc_closesession_sets_bit_before_write = true.
+  sc_closesession_sets_bit_before_write = true /\
+  (sc_writedeadline_cleared_where_expired = true /\ sc_newconn_deadlines_from_prev = true).
 Proof. exact source_tables. Qed.
 Print Assumptions C10_source_tables.
